@@ -57,6 +57,7 @@ def run(chk: Check, ctx: Any) -> None:
         "print. (R4) no pass deletes the routine's entry vertex. (R5) = C11-R5 memo rules. (R6) the passes run in the dependency order recorded from the "
         "code (e.g. group_branches before invert_branches). The structuring heuristics themselves are not decided."
     )
+    chk.rule("C02-R7", "round trip, every stage interpreted: for each program of the skeleton families (schematic ops and tests) whose decompilation is ExplorerScript, the text compiles and its flow graph is bisimilar to the input (all outcomes of all tests); same routine table")
     chk.rule("C02-R1", "print o parse o form-table = identity on every special-opcode spelling (see evidence key forms)")
     chk.rule("C02-R2", "dispatch exhaustiveness of the writers over the opcode tables and marker classes")
     chk.rule("C02-R3", "edge attribute conventions agree between producer and consumers; negation flag flipped together with the edges; if writer uses the op it is given")
@@ -243,3 +244,6 @@ def run(chk: Check, ctx: Any) -> None:
             continue
         chk.decide("C02-R6", key, order.index(a) < order.index(b), owner or dcls.mod,
                    f"{b} runs before {a}, but {why}", f"{a} before {b}")
+    from .roundtrip import summarise as _rt
+    _rt(chk, ctx, "C02-R7", "C02", getattr(ctx, "tier", "quick") == "thorough")
+
